@@ -562,11 +562,17 @@ class Interp:
                 self.truth(s.test, cur)
             return cur
         if isinstance(s, ast.Try):
+            saved = getattr(self, "_maybe_attr_error", False)
+            self._maybe_attr_error = False
             out = self.block(s.body, dict(env))
+            may_attr = self._maybe_attr_error
+            self._maybe_attr_error = saved or may_attr
             if out is not None and s.orelse:
                 out = self.block(s.orelse, out)
             res = out
-            for h in s.handlers:
+            only_attr = all(h.type is not None and dotted(h.type) == "AttributeError" for h in s.handlers)
+            handlers = [] if (only_attr and not may_attr and out is not None) else s.handlers
+            for h in handlers:
                 # handlers are alternative paths starting from the pre-state
                 sub = Interp.__new__(Interp)
                 sub.__dict__.update(self.__dict__)
@@ -627,6 +633,8 @@ class Interp:
             return V("q", dim={}, unit={}, val=None)
         if it.kind == "q":
             return V("q", dim=it.dim, unit=it.unit, val=None)
+        if it.kind == "mapping":
+            return it.extra[0]
         return TOP
 
     # -- expressions
@@ -643,6 +651,10 @@ class Interp:
             return env[name]
         if name in self.module_env:
             return self.module_env[name]
+        if self.resolver is not None:
+            tgt = self.resolver(name)
+            if tgt is not None:
+                return V("func", name=name)
         if name in ("True", "False"):
             return V("bool", val=(name == "True"))
         if name in ("math", "np", "numpy", "sympy"):
@@ -726,6 +738,8 @@ class Interp:
                 return self.iter_elem(base, node)
             if base.kind == "q":
                 return V("q", dim=base.dim, unit=base.unit, val=None)
+            if base.kind == "mapping":
+                return base.extra[1]
             if base.kind == "dict":
                 if idx.kind == "str" and base.items is not None and idx.name in base.items:
                     return base.items[idx.name]
@@ -787,6 +801,8 @@ class Interp:
             if node.attr == "e":
                 return num(Fraction(math.e))
             return V("befn", name=node.attr, extra=base.name)
+        if node.attr in ("simplified", "rescale", "dimensionality", "units", "magnitude") and (base.kind != "q" or base.plain or base.unit is None):
+            self._maybe_attr_error = True
         if base.kind == "q":
             if node.attr == "simplified":
                 if base.dim is None:
@@ -798,11 +814,14 @@ class Interp:
             if node.attr in ("dimensionality", "units"):
                 return V("q", dim=base.dim, unit=base.unit, val=lx(1), name="unitof")
             if node.attr == "magnitude":
+                self.raw_sink(base, node, ".magnitude")
                 return V("q", dim={}, unit={}, val=base.val, name="magnitude")
             if node.attr in ("rescale",):
                 return V("method", name="rescale", extra=base)
             if node.attr == "T":
                 return base
+        if base.kind == "mapping" and node.attr in ("items", "values", "keys", "get"):
+            return V("mapmethod", name=node.attr, extra=base.extra)
         if base.kind == "top" and node.attr in ("simplified",):
             return TOP
         h = self.hooks.get("attribute")
@@ -931,6 +950,18 @@ class Interp:
                     self.report("rescale-mismatch", node, "rescale of a %s quantity to a %s unit" % (dim_str(base.dim), dim_str(tgt.dim)))
                 return V("q", dim=base.dim, unit=tgt.unit if tgt.kind == "q" else None, val=None)
             return V("q", dim=base.dim, unit=base.unit, val=None)
+        if fv is not None and fv.kind == "func" and fname != fv.name:
+            fname = fv.name
+        if fv is not None and fv.kind == "mapmethod":
+            k, v = fv.extra
+            if fv.name == "items":
+                return V("tuple", items=[V("tuple", items=[k, v])], name="comp")
+            if fv.name == "values":
+                return V("tuple", items=[v], name="comp")
+            if fv.name == "keys":
+                return V("tuple", items=[k], name="comp")
+            if fv.name == "get":
+                return v
         if fv is not None and fv.kind == "befn":
             return self.math_call(fv.name, fv.extra, args, node, raw=(fv.extra == "math"))
         short = (fname or "").split(".")[-1]
@@ -1030,12 +1061,18 @@ class Interp:
 
     def raw_sink(self, x: V, node, what):
         """`what` reads the bare magnitude of x"""
+        if isinstance(node, ast.Attribute):
+            shown = U(node.value)[:60]
+        elif isinstance(node, ast.Call) and node.args:
+            shown = U(node.args[0])[:60]
+        else:
+            shown = ""
         if x.kind != "q" or x.unit is None:
             return
         opaque_atoms = [a for a in x.unit if a.startswith("U:")]
         if opaque_atoms:
             self.report("raw-magnitude", node, "%s(%s) reads the bare magnitude of a value still carrying the caller-chosen unit(s) %s: the result depends on the units the inputs are expressed in" % (
-                what, U(node.args[0])[:60] if isinstance(node, ast.Call) and node.args else "", _unit_str(x.unit)))
+                what, shown, _unit_str(x.unit)))
         elif x.unit:
             # concrete units that do not cancel textually: scale must be 1
             s = 1.0
@@ -1062,8 +1099,13 @@ class Interp:
             elif x.kind == "q" and x.dim == {} and raw:
                 self.raw_sink(x, node, "%s.%s" % (modname, fn))
             return V("q", dim={}, unit={}, val=None)
-        if fn in ("abs", "fabs", "asarray", "array", "sum", "atleast_1d"):
+        if fn in ("abs", "fabs", "asarray", "array", "sum", "atleast_1d", "squeeze", "ones_like", "zeros_like"):
             x = args[0] if args else TOP
+            if x.kind == "tuple":
+                out = None
+                for y in x.items:
+                    out = y if out is None else join(out, y)
+                x = out if out is not None else TOP
             return V("q", dim=x.dim, unit=x.unit, val=None) if x.kind == "q" else x
         if fn in ("any", "all", "isnan", "isfinite"):
             return BOOL
